@@ -829,6 +829,59 @@ pub fn stream_cases(tier: Tier, _which: Which) -> Vec<StreamCase> {
     v
 }
 
+// ------------------------------------------------------------------ opening huge files under faults
+/// open_stream on files with 0x10010 program headers / 0xff20 sections (extended numbering) under
+/// every single deviation of the alphabet at every I/O call of opening.
+pub struct HugeOpen {
+    pub which: Which,
+}
+impl Space for HugeOpen {
+    fn name(&self) -> String {
+        format!("{:?}: open_stream on a file with 0x10010 program headers and 0xff20 section headers (PN_XNUM / e_shnum = 0 escapes), reader at 4 start positions, every single deviation at every I/O call of opening; 2 encodings", self.which)
+    }
+    fn size(&self) -> u64 {
+        2
+    }
+    fn chunk_hint(&self) -> u64 {
+        1
+    }
+    fn hang_secs(&self) -> u64 {
+        600
+    }
+    fn describe(&self, idx: u64) -> Value {
+        json!({"encoding": ENCS[if idx == 0 { 2 } else { 1 }].name(), "program_headers": 0x10010, "section_headers": 0xff20})
+    }
+    fn run(&self, idx: u64, out: &mut Outcome) {
+        use super::c05::*;
+        let enc = ENCS[if idx == 0 { 2 } else { 1 }];
+        let e = reference_encoding(0xff20, 0x10010, 2);
+        let shs = layout(Kind::Shdr, enc.class).size as u64;
+        let phs = layout(Kind::Phdr, enc.class).size as u64;
+        let img = make(enc, 0xff20, 0x10010, 2, Placement::PhThenSh, &e, shs, phs);
+        let bytes = Arc::new(img.bytes);
+        let image = Image { name: format!("huge-tables/{}", enc.name()), bytes: bytes.clone(), shdr_pool: Vec::new(), phdr_pool: Vec::new(), names: Vec::new(), ops: Vec::new() };
+        let m = SModel::new(image, self.which, 1);
+        let init = m.init_states()[0].clone();
+        let l = bytes.len() as u64;
+        for p0 in [0u64, 16, l, l + 5] {
+            let kind = ActKind::Open(p0);
+            let mut scripts: Vec<Vec<(u32, Choice)>> = vec![vec![]];
+            m.scripts(&[], &kind, Vec::new(), 1, &mut scripts);
+            for sc in scripts {
+                if let Some(t) = m.step(&init, &Act { kind: kind.clone(), script: sc.clone() }) {
+                    out.transitions += 1;
+                    if let Some(bad) = t.bad {
+                        let key = if bad.contains("panic") { format!("panic:ElfStream::open_stream in {}", panic_site(&bad)) } else { "huge-open:wrong result under an environment deviation".to_string() };
+                        out.violate(key, format!("reader at {p0}, env script {:?}: {}", sc, bad));
+                        return;
+                    }
+                }
+            }
+        }
+        out.nontrivial(idx + 0x4000);
+    }
+}
+
 // ------------------------------------------------------------------ cache-occupancy sweep
 /// Linear histories: n distinct one-byte ranges are loaded first (n = 0..=max), then one op is
 /// issued; for every n and every op the answer must equal the slice parser's (C07), stay inside
@@ -884,6 +937,39 @@ impl Space for Occupancy {
             let mut scripts: Vec<Vec<(u32, Choice)>> = vec![vec![]];
             if self.which == Which::C17 {
                 model.scripts(&s.hist, &ActKind::Op(op), Vec::new(), 1, &mut scripts);
+            }
+            if self.which == Which::C17 && n >= 30 {
+                // a transient read fault on this very op BEFORE the fillers: residue of a failed
+                // load must not surface dozens of loads later
+                let mut s2 = model.init_states()[0].clone();
+                s2 = model.step(&s2, &Act { kind: ActKind::Open(0), script: vec![] }).unwrap();
+                if let Some(t) = model.step(&s2, &Act { kind: ActKind::Op(op), script: vec![(1, Choice::ReadErr)] }) {
+                    let mut cur = t;
+                    let mut ok = cur.bad.is_none();
+                    for k in 0..n {
+                        if !ok {
+                            break;
+                        }
+                        match model.step(&cur, &Act { kind: ActKind::Op(Op { kind: OpKind::SectionData, arg: (base + k) as u16 }), script: vec![] }) {
+                            Some(x) => {
+                                ok = x.bad.is_none();
+                                cur = x;
+                            }
+                            None => break,
+                        }
+                    }
+                    if ok {
+                        if let Some(x) = model.step(&cur, &Act { kind: ActKind::Op(op), script: vec![] }) {
+                            cur = x;
+                        }
+                    }
+                    out.transitions += n as u64 + 2;
+                    if let Some(bad) = cur.bad {
+                        let key = if bad.contains("panic") { format!("panic:ElfStream in {}", panic_site(&bad)) } else { format!("occupancy:{:?} after a failed load and {} cached ranges", op.kind, n) };
+                        out.violate(key, format!("{:?} with a read fault, then {} other ranges, then {:?} again: {}", op, n, op, bad));
+                        return;
+                    }
+                }
             }
             for sc in scripts {
                 if let Some(t) = model.step(&s, &Act { kind: ActKind::Op(op), script: sc.clone() }) {
